@@ -37,6 +37,8 @@ import (
 	"time"
 
 	zed "github.com/brimdata/super"
+	"github.com/brimdata/super/zbuf"
+	"github.com/brimdata/super/zio"
 	"github.com/brimdata/super/zson"
 
 	"verif/core"
@@ -55,6 +57,10 @@ type runResult struct {
 	Closed   []int
 	Panic    string
 	Writes   int // Write calls issued
+	// the copy loop that drove the Write calls, and whether it honoured its contract
+	Loop          string
+	LoopSwallowed bool // a Write returned an error but the loop returned nil
+	LoopContinued int  // Write calls issued after a Write had returned an error
 }
 
 func parseVals(t *target, script []string) ([]zed.Value, error) {
@@ -74,8 +80,34 @@ func parseVals(t *target, script []string) ([]zed.Value, error) {
 	return vals, nil
 }
 
-// execute drives the real writer: Write each value, stop at the first error
-// (as zio.CopyWithContext and every caller in the repository do), then Close.
+// shim records the Write calls that the repository's copy loop issues and
+// what each returned to the loop.
+type shim struct {
+	w          writer
+	p          *plan
+	res        *runResult
+	sawErr     bool
+	afterError int // Write calls issued by the loop after a Write had failed
+}
+
+func (s *shim) Write(v zed.Value) error {
+	if s.sawErr {
+		s.afterError++
+	}
+	s.p.curOp = "Write"
+	s.p.events = append(s.p.events, Event{E: "call", Op: "Write"})
+	s.res.Writes++
+	err := s.w.Write(v)
+	s.p.events = append(s.p.events, Event{E: "ret", Op: "Write", Err: err != nil})
+	if err != nil {
+		s.sawErr = true
+	}
+	return err
+}
+
+// execute drives the real writer the way the repository does: the values are
+// copied to it by one of the real copy loops (zio.Copy or zbuf.CopyPuller,
+// which must stop at the first error), then Close is called.
 func execute(t *target, script []string, k int, mode string, ref [][]byte) (res *runResult, err error) {
 	vals, err := parseVals(t, script)
 	if err != nil {
@@ -93,16 +125,19 @@ func execute(t *target, script []string, k int, mode string, ref [][]byte) (res 
 	if err != nil {
 		return nil, err
 	}
-	for _, v := range vals {
-		p.curOp = "Write"
-		p.events = append(p.events, Event{E: "call", Op: "Write"})
-		res.Writes++
-		err := w.Write(v)
-		p.events = append(p.events, Event{E: "ret", Op: "Write", Err: err != nil})
-		if err != nil {
-			res.Reported = true
-			break
-		}
+	sh := &shim{w: w, p: p, res: res}
+	var loopErr error
+	res.Loop = "zio.Copy"
+	if (k+len(script))%2 == 1 {
+		res.Loop = "zbuf.CopyPuller"
+		loopErr = zbuf.CopyPuller(sh, zbuf.NewPuller(zbuf.NewArray(vals)))
+	} else {
+		loopErr = zio.Copy(sh, zbuf.NewArray(vals))
+	}
+	res.LoopSwallowed = sh.sawErr && loopErr == nil
+	res.LoopContinued = sh.afterError
+	if loopErr != nil {
+		res.Reported = true
 	}
 	p.curOp = "Close"
 	p.events = append(p.events, Event{E: "call", Op: "Close"})
@@ -185,6 +220,7 @@ type traceRec struct {
 	failed   bool
 	reported bool
 	site     string
+	loopBad  bool // the copy loop broke its contract: the caller's view differs from the Write returns
 }
 
 type checker struct {
@@ -199,7 +235,7 @@ func scriptKey(s []string) string { return strings.Join(s, "") }
 
 func (ck *checker) record(t *target, w witness, tot []int, r *runResult) *traceRec {
 	tr := &traceRec{id: len(ck.traces) + 1, t: t, w: w, tot: tot, events: r.Events,
-		failed: r.Failed, reported: r.Reported, site: r.FailSite}
+		failed: r.Failed, reported: r.Reported, site: r.FailSite, loopBad: r.LoopSwallowed || r.LoopContinued > 0}
 	ck.traces = append(ck.traces, tr)
 	return tr
 }
@@ -214,6 +250,12 @@ func (ck *checker) faultOracle(t *target, w witness, r *runResult) {
 	if r.Panic != "" {
 		c.Inconclusive("writer %s panicked on script %v k=%d %s: %s", t.Name, w.Script, w.K, w.Mode, r.Panic)
 		return
+	}
+	if r.LoopSwallowed || r.LoopContinued > 0 {
+		w.Trace = compact(r.Events)
+		c.Violate("copy-loop-ignores-writer-error:"+r.Loop,
+			fmt.Sprintf("%s does not stop at the first writer error (error dropped: %v, Write calls after the error: %d): %s",
+				r.Loop, r.LoopSwallowed, r.LoopContinued, w.Trace), w)
 	}
 	if r.Failed && !r.Reported {
 		w.Trace = compact(r.Events)
@@ -494,6 +536,9 @@ func (ck *checker) validate(jvms int) {
 			continue
 		}
 		goBad := tr.failed && !tr.reported
+		if tr.loopBad {
+			continue // already reported by the copy-loop oracle; the trace shows the writer's returns, not the caller's view
+		}
 		if v.Failed != tr.failed || v.Reported != tr.reported || v.PropReported == goBad {
 			c.Inconclusive("specification and harness disagree on %s script %v k=%d %s: spec failed=%v reported=%v property=%v, harness failed=%v reported=%v",
 				tr.t.Name, tr.w.Script, tr.w.K, tr.w.Mode, v.Failed, v.Reported, v.PropReported, tr.failed, tr.reported)
@@ -507,7 +552,7 @@ func (ck *checker) validate(jvms int) {
 		}
 		if v.Broken != "" {
 			c.Add("traces_breaking_a_local_rule", 1)
-			if !goBad {
+			if !goBad && (tr.failed || v.PropComplete) {
 				c.Drift("%s script %v k=%d %s breaks local rule %s of SinkWriter.tla although the property holds: %s",
 					tr.t.Name, tr.w.Script, tr.w.K, tr.w.Mode, v.Broken, compact(tr.events))
 			}
